@@ -363,6 +363,18 @@ def _coverage(repo, rep):
               "the object's qualified name (its plain __name__ only where "
               "it has none)", construct="stable-name-qualified",
               where=L.where(sn), detail=qdetail)
+    # what has no stable name must still get a name that no OTHER object can
+    # have while entries made under it exist: the default repr() carries the
+    # memory address, which the next closure allocated there inherits
+    rets_ = [n for n in ast.walk(sn.node) if isinstance(n, ast.Return)
+             and n.value is not None]
+    bare_repr = [n for n in rets_ if isinstance(n.value, ast.Call)
+                 and src(n.value.func) == "repr" and len(n.value.args) == 1]
+    rep.check(bool(rets_) and not bare_repr, "R15.1", sn.qualname, "the "
+              "fallback name of a value without a stable name is not its "
+              "bare repr() (address-based: reused by a later object)",
+              construct="stable-name-fallback-unique", where=L.where(
+                  sn, bare_repr[0].lineno) if bare_repr else L.where(sn))
     # ... nor does a method bound to an instance: the bound method forwards
     # the function's __qualname__, the instance that configures it is not in
     # the name (two expression-type factories obj_a.make / obj_b.make)
